@@ -23,9 +23,9 @@ CHECKS = {
  "C03": dict(tech="deterministic simulation: seeded histories over replicas; observation compared with an executable reference model after every delivery",
    text="Same sessions as C01, equality oracle: after every delivery the observation equals infer(DOMs delivered so far) - same fields by XML name, same Option / Vec / String typing, same text flag, and the whole-tree rendering is exactly one struct per non-String position. The reference model is ~80 lines straight from the statement. Sampling, not proof.",
    ref="DESIGN.md §2.6, §3 C03", note="Trusted: the reference model (definition in the statement); attributes compared by bound serde name; String-typing is not compared for elements literally named 'string' (ambiguous in the rendered text)."),
- "C05": dict(tech="deterministic simulation: seeded entropy twins (hash-seed schedules) over generated histories, byte-equality oracle",
-   text="Seeded search over (history, hash-entropy) pairs: each run parses and extends the same generated history on 2-4 fresh threads whose RandomState keys are chosen by the simulator, renders after every delivery with every preset x sort combination (twice per thread) and demands byte equality. Determinism is a statement over all hash seeds, which only controlled entropy can vary and replay. Sampling, not proof.",
-   ref="DESIGN.md §2.2, §3 C05", note="Trusted: std's RandomState obtains its keys through the interposable getrandom symbol (canary on every batch); allocation addresses are not varied."),
+ "C05": dict(tech="deterministic simulation: seeded entropy twins (hash-seed schedules) plus veteran-thread, migrating, logging, populated-environment, lazy and process twins over generated histories, byte-equality oracle",
+   text="Seeded search over (history, hash-entropy) pairs: each run parses and extends the same generated history on 2-4 fresh threads whose RandomState keys are chosen by the simulator, renders after every delivery with every preset x sort combination (twice per thread) and demands byte equality. Further twins differ in what the thread did before (warm-ups), in which thread runs each delivery, in the log level, in the environment variables (interposed getenv), in whether intermediate trees were rendered, and in the process (the shipped CLI run twice under the shim). Determinism is a statement over all repetitions, which only a controlled environment can vary and replay. Sampling, not proof.",
+   ref="DESIGN.md §2.2, §3 C05, §11", note="Trusted: std's RandomState obtains its keys through the interposable getrandom symbol (canary on every batch); allocation addresses are varied but not controlled; findings that need the worker process's history are replayed as a run prefix."),
  "C06": dict(tech="deterministic simulation: replicas fed by an unreliable delivery layer (reorder, duplicate, empty inputs, failed-then-retried deliveries, all k! orders in sweeps); convergence to the reference model of the union, idempotence, monotonicity and failure-reporting checked over the recorded histories",
    text="Convergence of a merge under reordering, duplicating, failing delivery: every replica must end at infer(union) (compared by XML name and flags, order-insensitive) and equal to every other replica; redelivery and element-less inputs are no-ops; no field / Option / Vec / text flag is ever lost along a history; a delivery whose stream was at fault (independent verdict) returns Err and an intact one Ok. Sampling plus bounded all-orders sweeps.",
    ref="DESIGN.md §2.4, §3 C06", note="Trusted: reference model; independent verdict pass (quick-xml events); the client keeps its pre-operation clone because extend_struct consumes the tree."),
